@@ -28,10 +28,6 @@ Fixpoint Sparse (s : list (fate * fate)) : Prop :=
   end.
 Lemma Sparse_tl s : Sparse s -> hd (FD, FD) s = (FD, FD) -> Sparse (tl s).
 Proof. destruct s as [|ff r]; [auto|]. cbn. intros H ->. exact H. Qed.
-(* no response is corrupted (a request that was delivered is never answered by an unreadable frame) *)
-Definition NC (s : list (fate * fate)) : Prop := Forall (fun ff => ff <> (FD, FC)) s.
-Lemma NC_skipn k s : NC s -> NC (skipn k s).
-Proof. unfold NC. revert s. induction k as [|k IH]; intros s H; [exact H|]. destruct s; [constructor|]. inversion H; subst. apply IH. assumption. Qed.
 Lemma clean_eq ff : clean ff = true -> ff = (FD, FD).
 Proof. destruct ff as [[] []]; cbn; congruence. Qed.
 
@@ -216,11 +212,11 @@ Proof.
 Qed.
 
 (* request_retransmission, entered only after the target has accepted the request *)
-Lemma req_nak_S n : forall p rwt deadline w out w', w_t w = t1 -> 0 <= p <= 3 ->
-  req_nak n ic tc p rwt deadline w = (out, w') ->
+Lemma req_nak_S n : forall p ch rwt deadline w out w', w_t w = t1 -> 0 <= p <= 3 ->
+  req_nak n ic tc p ch rwt deadline w = (out, w') ->
   w_t w' = t1 /\ w_now w <= w_now w' /\ (out = Ok (PDepRes r) \/ exists e, out = Err e /\ comm e).
 Proof.
-  induction n as [|n IH]; intros p rwt deadline w out w' Ht Hp H; cbn [req_nak] in H.
+  induction n as [|n IH]; intros p ch rwt deadline w out w' Ht Hp H; cbn [req_nak] in H.
   - injection H as <- <-. split; [exact Ht|]. split; [lia|]. right; eauto.
   - destruct (Z.min rwt (deadline - w_now w) <=? 0) eqn:Et.
     { injection H as <- <-. split; [exact Ht|]. split; [lia|]. right; eauto. }
@@ -228,12 +224,12 @@ Proof.
     pose proof (srr1_step (nak_req p) (Z.min rwt (deadline - w_now w)) w _ _ (nak_req_ok p Hp) (proj1 (proj2 t1_facts)) Hs) as Hso.
     fold (nak_req p) in H. destruct (srr1 ic tc (PDepReq (nak_req p)) (Z.min rwt (deadline - w_now w)) w) as [x w1].
     inversion Hso as [w2 E1 E2 E3 E4 E5|w2 E1 E2 E3 E4 E5|w2 E1 E2 E3 E4 E5|w2 E1 E2 E3 E4 E5]; subst x w2.
-    + assert (Ht1 : w_t w1 = t1) by congruence. destruct (IH _ _ _ _ _ _ Ht1 Hp H) as (A & B & C).
+    + assert (Ht1 : w_t w1 = t1) by congruence. destruct (IH _ _ _ _ _ _ _ Ht1 Hp H) as (A & B & C).
       split; [exact A|]. split; [lia | exact C].
-    + destruct (IH _ _ _ _ _ _ E1 Hp H) as (A & B & C). split; [exact A|]. split; [lia | exact C].
-    + destruct (IH _ _ _ _ _ _ E1 Hp H) as (A & B & C). split; [exact A|]. split; [lia | exact C].
+    + destruct (IH _ _ _ _ _ _ _ E1 Hp H) as (A & B & C). split; [exact A|]. split; [lia | exact C].
+    + destruct (IH _ _ _ _ _ _ _ E1 Hp H) as (A & B & C). split; [exact A|]. split; [lia | exact C].
     + destruct (fmt r =? F_RTOX); [injection H as <- <-; split; [exact E1|]; split; [lia|]; right; eauto|].
-      destruct (negb ((fmt r =? F_INF) || (fmt r =? F_MORE))); injection H as <- <-;
+      destruct (negb ((fmt r =? F_INF) || (fmt r =? F_MORE) || (ch && (fmt r =? F_ACK)))); injection H as <- <-;
         (split; [exact E1|]; split; [lia|]); [right; eauto | left; reflexivity].
 Qed.
 
@@ -266,7 +262,7 @@ Proof.
     inversion Hso as [w2 E1 E2 E3 E4 E5|w2 E1 E2 E3 E4 E5|w2 E1 E2 E3 E4 E5|w2 E1 E2 E3 E4 E5]; subst x w2.
     + apply (Hcont w1); [rewrite E1; exact Hin | lia | exact H].
     + apply (Hcont w1); [rewrite E1; right; right; reflexivity | lia | exact H].
-    + destruct (req_nak_S _ _ _ _ _ _ _ E1 Hp H) as (A & B & C).
+    + destruct (req_nak_S _ _ _ _ _ _ _ _ E1 Hp H) as (A & B & C).
       split; [rewrite A; right; right; reflexivity|]. destruct C as [->|[e [-> He]]]; [left; auto | right; left; eauto].
     + injection H as <- <-. split; [rewrite E1; right; right; reflexivity|]. left; auto.
 Qed.
@@ -306,9 +302,9 @@ Proof.
     exists w1. auto.
 Qed.
 
-Lemma req_nak_dd n p rwt deadline w : w_t w = t1 -> 0 <= p <= 3 -> hd (FD, FD) (w_script w) = (FD, FD) ->
-  0 < Z.min rwt (deadline - w_now w) -> (fmt r = F_INF \/ fmt r = F_MORE) ->
-  exists w', req_nak (S n) ic tc p rwt deadline w = (Ok (PDepRes r), w') /\ w_t w' = t1 /\
+Lemma req_nak_dd n p ch rwt deadline w : w_t w = t1 -> 0 <= p <= 3 -> hd (FD, FD) (w_script w) = (FD, FD) ->
+  0 < Z.min rwt (deadline - w_now w) -> ((fmt r = F_INF \/ fmt r = F_MORE) \/ (fmt r = F_ACK /\ ch = true)) ->
+  exists w', req_nak (S n) ic tc p ch rwt deadline w = (Ok (PDepRes r), w') /\ w_t w' = t1 /\
              w_script w' = tl (w_script w) /\ w_now w' = w_now w.
 Proof.
   intros Hw Hp Hhd Ht Hfr. cbn [req_nak]. replace (Z.min rwt (deadline - w_now w) <=? 0) with false by lia.
@@ -319,15 +315,16 @@ Proof.
   - exfalso. apply E4. rewrite Hhd. reflexivity.
   - rewrite Hhd in E4. discriminate.
   - rewrite Hhd in E4. discriminate.
-  - replace (fmt r =? F_RTOX) with false by (unfold F_INF, F_MORE, F_RTOX in *; lia).
-    replace ((fmt r =? F_INF) || (fmt r =? F_MORE)) with true by lia. cbn [negb].
+  - replace (fmt r =? F_RTOX) with false by (unfold F_INF, F_MORE, F_ACK, F_RTOX in *; lia).
+    replace ((fmt r =? F_INF) || (fmt r =? F_MORE) || (ch && (fmt r =? F_ACK))) with true
+      by (destruct Hfr as [Hfr|[Hfr ->]]; cbn [andb]; lia). cbn [negb].
     exists w1. auto.
 Qed.
 
-(* a single fault, followed by two fault free rounds, is recovered: the call returns the response - unless the
-   fault is the corruption of an ACK response (request_retransmission rejects a retransmitted ACK) *)
+(* a single fault, followed by two fault free rounds, is recovered: the call returns the response (an ACK response
+   only ever answers a chained information PDU, for which request_retransmission accepts its retransmission) *)
 Lemma srr_loop_sparse fuel p deadline w : w_t w = t0 \/ w_t w = awake t0 -> 0 <= p <= 3 -> Sparse (w_script w) ->
-  2 <= deadline - w_now w -> (2 <= fuel)%nat -> ((fmt r = F_INF \/ fmt r = F_MORE) \/ NC (w_script w)) ->
+  2 <= deadline - w_now w -> (2 <= fuel)%nat -> ((fmt r = F_INF \/ fmt r = F_MORE) \/ (fmt r = F_ACK /\ fmt d = F_MORE)) ->
   exists w', srr_loop fuel ic tc p (PDepReq d) 1 deadline w = (Ok (PDepRes r), w') /\ w_t w' = t1 /\ Sparse (w_script w') /\
              exists k, w_script w' = skipn k (w_script w).
 Proof.
@@ -362,8 +359,9 @@ Proof.
   - apply Hatn; [rewrite E1; exact Hin | rewrite E2, Esc; reflexivity | exact E3].
   - apply Hatn; [rewrite E1; right; right; reflexivity | rewrite E2, Esc; reflexivity | exact E3].
   - rewrite Esc in E4. cbn in E4. subst ff.
-    destruct Hfr as [Hfr|Hnc]; [|exfalso; inversion Hnc as [|? ? Hh _]; apply Hh; reflexivity].
-    destruct (req_nak_dd 1 p 1 deadline w1 E1 Hp) as (w2 & E & A & B & C); [rewrite E2, Esc; reflexivity | lia | exact Hfr|].
+    cbn [is_chained].
+    destruct (req_nak_dd 1 p (fmt d =? F_MORE) 1 deadline w1 E1 Hp) as (w2 & E & A & B & C);
+      [rewrite E2, Esc; reflexivity | lia | destruct Hfr as [Hfr|[Hfr Hd]]; [left; exact Hfr | right; split; [exact Hfr | rewrite Hd; reflexivity]]|].
     exists w2. rewrite E, B, E2, Esc. cbn. repeat split; auto. exists 2%nat. reflexivity.
   - rewrite Esc in E4. cbn in E4. subst ff. discriminate.
 Qed.
@@ -393,13 +391,12 @@ Proof.
   rewrite E. replace (fmt r =? F_NAK) with false by lia. exists w'. auto.
 Qed.
 Theorem srr_sparse fuel p timeout w : w_t w = t0 \/ w_t w = awake t0 -> 0 <= p <= 3 -> Sparse (w_script w) ->
-  2 <= timeout -> (2 <= fuel)%nat -> ((fmt r = F_INF \/ fmt r = F_MORE) \/ (fmt r = F_ACK /\ NC (w_script w))) ->
+  2 <= timeout -> (2 <= fuel)%nat -> ((fmt r = F_INF \/ fmt r = F_MORE) \/ (fmt r = F_ACK /\ fmt d = F_MORE)) ->
   exists w', srr fuel ic tc p d 1 timeout w = (Ok r, w') /\ w_t w' = t1 /\ Sparse (w_script w') /\
              exists k, w_script w' = skipn k (w_script w).
 Proof.
   intros Hw0 Hp Hsp Hto Hfuel Hfr. unfold srr.
-  assert (Hfr' : (fmt r = F_INF \/ fmt r = F_MORE) \/ NC (w_script w)) by tauto.
-  destruct (srr_loop_sparse fuel p (w_now w + timeout) w Hw0 Hp Hsp ltac:(lia) Hfuel Hfr') as (w' & E & A & B & C).
+  destruct (srr_loop_sparse fuel p (w_now w + timeout) w Hw0 Hp Hsp ltac:(lia) Hfuel Hfr) as (w' & E & A & B & C).
   rewrite E. replace (fmt r =? F_NAK) with false by (unfold F_INF, F_MORE, F_ACK, F_NAK in *; lia). exists w'. auto.
 Qed.
 End Step.
